@@ -49,20 +49,29 @@ def clean_shape(v):
             return ops_, v
 
 
-def run(ctx, report):
+class _NoRule:
+    samples = ()
+
+    def instance(self, *a, **k):
+        pass
+
+    def finding(self, *a, **k):
+        pass
+
+
+def normalisation_rules(ctx, report, prefix="R10", parts=("clean", "norm")):
+    """The two rules every property about 'the text after removing whitespace and upper-casing' rests on: clean() removes exactly the
+    whitespace and upper-cases, and every constructor carries clean(raw) and never reads the raw parameter again.  C10 owns them; the
+    validator properties (C01-C04) run them under their own rule names as premise P0 of their symbolic model (which starts from the
+    cleaned text)."""
     prog = ctx.program
     facts = ctx.facts
-    report.explanation = (
-        "clean() is evaluated on a symbolic raw text: its result must be the raw text with one regex substitution by '' and upper() applied; the regex is "
-        "shown (on automata) to match every single whitespace character of str.isspace and nothing but whitespace. Every constructor of IBAN / BIC / BBAN is "
-        "evaluated symbolically and must carry exactly clean(raw) as its value and never read the raw parameter again. formatted is evaluated on tagged "
-        "strings of every length and must be the groups of four / the four parts joined by one character that clean() removes."
-    )
     raw = SStr(("S", "raw"), clean=False)
     clean_f = prog.get("schwifty.common.clean")
     it = facts.interp()
     o = _one(it, lambda: it.call_func(clean_f, [raw], {}, None), "clean(raw)")
-    r = report.rule("R10-clean", floor=2, what="clean = remove the whitespace regex, upper-case; the regex matches every whitespace character and only whitespace")
+    r = report.rule(f"{prefix}-clean", floor=2, what="clean = remove the whitespace regex, upper-case; the regex matches every whitespace character and only whitespace") \
+        if "clean" in parts else _NoRule()
     ops_, core = clean_shape(o.value) if o.kind == "return" else ([], None)
     r.instance({"clean(raw)": repr(o.value)[:200]})
     kinds = sorted(x[0] for x in ops_ if x[0] != "strip")
@@ -114,7 +123,7 @@ def run(ctx, report):
         r.instance({"order": "upper(remove(raw))" if not up_first else "remove(upper(raw))"})
 
     # ------------------------------------------------------------------ R10-norm
-    r = report.rule("R10-norm", floor=3, what="every constructor yields an object whose value is clean(raw); the raw parameter is not read afterwards")
+    r = report.rule(f"{prefix}-norm", floor=3, what="every constructor yields an object whose value is clean(raw); the raw parameter is not read afterwards")
     want = o.value
     for q, args, kw in (("schwifty.iban.IBAN", [raw], {"allow_invalid": True}), ("schwifty.bic.BIC", [raw], {"allow_invalid": True}),
                         ("schwifty.bban.BBAN", ["XY", raw], {})):
@@ -138,6 +147,60 @@ def run(ctx, report):
             if textparam and any(isinstance(n, ast.Name) and n.id == textparam and isinstance(n.ctx, ast.Load) for n in ast.walk(init[2].node)):
                 r.finding(f"{cls.short}.__init__:raw", f"{cls.short}.__init__ reads its raw text parameter {textparam!r}; the un-normalised text must not influence the object",
                           init[2].where)
+
+    return o, ops_, kinds
+
+
+def run(ctx, report):
+    prog = ctx.program
+    facts = ctx.facts
+    report.explanation = (
+        "clean() is evaluated on a symbolic raw text: its result must be the raw text with one regex substitution by '' and upper() applied; the regex is "
+        "shown (on automata) to match every single whitespace character of str.isspace and nothing but whitespace. Every constructor of IBAN / BIC / BBAN is "
+        "evaluated symbolically and must carry exactly clean(raw) as its value and never read the raw parameter again. formatted is evaluated on tagged "
+        "strings of every length and must be the groups of four / the four parts joined by one character that clean() removes."
+    )
+    o, ops_, kinds = normalisation_rules(ctx, report, "R10")
+    raw = SStr(("S", "raw"), clean=False)
+    # ------------------------------------------------------------------ R10-components: the other place where text enters - generation
+    from ..algo_eval import country_fields, struct_positions
+    from ..gen_eval import GUARDED, GenHarness, pattern
+    from ..par import replay, run_recorded
+    reg = ctx.registry
+    r_comp = report.rule("R10-components", floor=100, what="IBAN.generate / BBAN.from_components give the same result for every whitespace / letter-case variant of the components (also of a combined bank+branch code)")
+    countries = [cc for cc in sorted(reg.countries) if reg.positions(cc) and struct_positions(reg, cc)]
+    h = GenHarness(ctx)
+
+    def comp_body(cc, rules):
+        rc = rules["R10-components"]
+        fields = country_fields(reg, cc)
+        full = {c: pattern(fields[c][2], salt=3 * i) for i, c in enumerate(GUARDED) if c in fields}
+        bases = [("separate", full)]
+        if "bank_code" in fields and "branch_code" in fields:
+            comb = dict(full)
+            comb["bank_code"] = full["bank_code"] + full["branch_code"]
+            comb.pop("branch_code")
+            bases.append(("combined bank+branch", comb))
+
+        def variants(vals):
+            yield "spaces inside", {c: " ".join([v[: len(v) // 2], v[len(v) // 2:]]) for c, v in vals.items()}
+            yield "lower case, surrounding and no-break spaces", {c: "\u00a0" + v.lower() + " \t" for c, v in vals.items()}
+
+        def show(res):
+            return res[1] if res[0] == "ret" else f"raises {res[1].name}"
+
+        for label, vals in bases:
+            ref = h.from_components(cc, **vals)
+            for vlabel, vv in variants(vals):
+                got = h.from_components(cc, **vv)
+                rc.instance({"country": cc, "form": label, "variant": vlabel} if cc == "GB" else None)
+                if show(got) != show(ref):
+                    rc.finding(f"from_components[{cc}]:{label}", f"{cc} ({label}): components {vals} give {show(ref)!r}, the variant with {vlabel} {vv} gives {show(got)!r}",
+                               h.bban.methods["from_components"].where, witness={"country": cc, **vv})
+                    return
+
+    for recs, _ in run_recorded(["R10-components"], comp_body, countries):
+        replay({"R10-components": r_comp}, recs, cap=6)
 
     # ------------------------------------------------------------------ R10-format
     r = report.rule("R10-format", floor=30, what="formatted = compact form in groups of four (IBAN) / the four parts (BIC) joined by one removed character")
